@@ -5,7 +5,7 @@
 // In part of the cases the peer also sends ResendRequests while the threads are sending (one outstanding at a time): the replay runs on the
 // session's reader thread concurrently with the senders' stores.  Oracle for the replay: every number below the highest one the peer had
 // seen when it asked was stored by then (sends are serialised: a message is stored before the next one is written), so it must come back as
-// a PossDup copy of what was transmitted, in ascending order, never covered by a gap fill.
+// a PossDup copy of what was transmitted, in ascending order; and no gap fill ever stands for an application message of the run.
 #include <fix8/f8includes.hpp>
 #include "utest_types.hpp"
 #include "utest_router.hpp"
@@ -133,12 +133,13 @@ static void one_case(long long n, uint64_t seed, const std::string& dir)
 				else if (outstanding && !reqs.empty()) {
 					// the answer is complete once it has reached the last number that was certainly stored when we asked
 					const unsigned upto = gf ? (unsigned)atol(field(m, "36").c_str()) - 1 : sq;
-					// (a request 'to the latest' has no recognisable end: it is the last one of its case)
-					if (reqs.back().end && upto >= reqs.back().end) { outstanding = false; since = 0; }
+					// (a request 'to the latest' has no recognisable end: once its answer has reached what was certainly stored the next
+					// request may follow, but from then on answers can overlap and only the rules that need no attribution are applied)
+					if (upto >= (reqs.back().end ? reqs.back().end : reqs.back().seen_hi - 1)) { outstanding = false; since = 0; }
 				}
 			}
 			if (!outstanding && since >= resend_gap && hi > first_seq_hint + 2 && reqs.size() < 12) {
-				Req q; q.seen_hi = hi; q.begin = (unsigned)rr.range(first_seq_hint, hi - 1); q.end = rr.chance(25) ? 0 : (unsigned)rr.range(q.begin, hi - 1); q.wire_msg_index = nmsgs;
+				Req q; q.seen_hi = hi; q.begin = (unsigned)rr.range(first_seq_hint, hi - 1); q.end = rr.chance(40) ? 0 : (unsigned)rr.range(q.begin, hi - 1); q.wire_msg_index = nmsgs;
 				char body[200], msg[300];
 				Tickval tv(true); struct tm tmv; time_t secs = (time_t)tv.secs(); gmtime_r(&secs, &tmv);
 				char ts[32]; strftime(ts, sizeof ts, "%Y%m%d-%H:%M:%S", &tmv);
@@ -219,14 +220,17 @@ static void one_case(long long n, uint64_t seed, const std::string& dir)
 		}
 		return o;
 	};
+	struct GapFill { unsigned from, to; size_t req; };
+	std::vector<GapFill> gapfill_list;
 	size_t ri = 0; unsigned cover = 0;	// replay oracle state: request being answered, next number its answer must cover
+	bool attribution_lost = false;	// set once a request follows an open-ended one: its answer may overlap the tail of the previous answer
 	long replayed = 0, gapfills = 0;
 	for (auto& m : msgs) {
 		const size_t mi = (size_t)(&m - &msgs[0]);
 		const unsigned s = (unsigned)atol(field(m, "34").c_str());
 		const std::string id = field(m, "11");
 		const bool dup = field(m, "43") == "Y", gf = field(m, "35") == "4";
-		while (ri < reqs.size() && ri + 1 < reqs.size() && reqs[ri + 1].wire_msg_index <= mi) { ++ri; cover = 0; }
+		while (ri < reqs.size() && ri + 1 < reqs.size() && reqs[ri + 1].wire_msg_index <= mi) { if (!reqs[ri].end) attribution_lost = true; ++ri; cover = 0; }
 		if (dup || gf) {
 			// part of the answer to request ri
 			if (reqs.empty() || reqs[ri].wire_msg_index > mi) { if (ok) { snprintf(d, sizeof d, "a retransmission (number %u) appears on the wire before any resend request was sent", s); R.viol("oracle:unrequested-retransmission|" + cls, d); ok = false; } continue; }
@@ -236,15 +240,13 @@ static void one_case(long long n, uint64_t seed, const std::string& dir)
 			if (gf) {
 				++gapfills;
 				const unsigned nsn = (unsigned)atol(field(m, "36").c_str());
-				for (unsigned k = std::max(s, cover); k < nsn && k <= certain && ok; ++k) if (k < sent_by_num.size() && !field(sent_by_num[k], "11").empty()) {
-					snprintf(d, sizeof d, "threads=%d: resend request [%u,%u] sent after number %u had been seen on the wire: gap fill %u->%u covers application message %u (id %s), which was stored by then", nthreads, q.begin, q.end, q.seen_hi, s, nsn, k, field(sent_by_num[k], "11").c_str());
-					R.viol("oracle:gapfill-skips-stored-message|" + cls, d); ok = false;
-				}
+				gapfill_list.push_back({s, nsn, ri});	// judged below, when every new message of the run is known
+				(void)certain;
 				if (nsn > cover) cover = nsn;
 			} else {
 				++replayed;
-				if (s < cover && ok && s >= q.begin) { snprintf(d, sizeof d, "resend request [%u,%u]: retransmission of %u after the answer had already reached %u (not ascending)", q.begin, q.end, s, cover); R.viol("oracle:replay-not-ascending|" + cls, d); ok = false; }
-				if (s > cover && ok) for (unsigned k = cover; k < s && k <= certain; ++k) if (k >= q.begin && k < sent_by_num.size() && !field(sent_by_num[k], "11").empty()) {
+				if (s < cover && ok && s >= q.begin && !attribution_lost) { snprintf(d, sizeof d, "resend request [%u,%u]: retransmission of %u after the answer had already reached %u (not ascending)", q.begin, q.end, s, cover); R.viol("oracle:replay-not-ascending|" + cls, d); ok = false; }
+				if (s > cover && ok && !attribution_lost) for (unsigned k = cover; k < s && k <= certain; ++k) if (k >= q.begin && k < sent_by_num.size() && !field(sent_by_num[k], "11").empty()) {
 					snprintf(d, sizeof d, "threads=%d: resend request [%u,%u] (highest seen %u): the answer jumps from %u to %u without retransmitting or gap-filling application message %u", nthreads, q.begin, q.end, q.seen_hi, cover, s, k);
 					R.viol("oracle:replay-skips-stored-message|" + cls, d); ok = false; break;
 				}
@@ -266,6 +268,13 @@ static void one_case(long long n, uint64_t seed, const std::string& dir)
 		++ids[id];
 		order_hash = (order_hash ^ (uint64_t)(id.size() > 1 ? id[1] : 0)) * 1099511628211ULL;
 		if (s < stored.size() && stored[s] != m && ok) { snprintf(d, sizeof d, "number %u: wire message (id %s, %zu bytes) differs from the stored copy (%zu bytes, id %s)", s, id.c_str(), m.size(), stored[s].size(), field(stored[s], "11").c_str()); R.viol("oracle:stored-copy-differs-from-wire|" + cls, d); ok = false; }
+	}
+	// A gap fill never stands for an application message, whenever that message was sent: the answer ends where sending had got to when
+	// it began, a number is passed only after its message is stored, and what is stored is retransmitted.
+	for (auto& g : gapfill_list) for (unsigned k = g.from; k < g.to && ok; ++k) if (k < sent_by_num.size() && !field(sent_by_num[k], "11").empty()) {
+		const Req& q = reqs[g.req];
+		snprintf(d, sizeof d, "threads=%d: resend request [%u,%u] (sent after number %u had been seen): gap fill %u->%u stands for application message %u (id %s)", nthreads, q.begin, q.end, q.seen_hi, g.from, g.to, k, field(sent_by_num[k], "11").c_str());
+		R.viol("oracle:gapfill-skips-stored-message|" + cls, d); ok = false;
 	}
 	R.stat("resend_requests", (long long)reqs.size()); R.stat("retransmissions_checked", replayed); R.stat("gap_fills_seen", gapfills);
 	if (!drained) { R.viol("inconclusive:writer-not-drained-after-120s|" + cls, "the pipelined writer had not numbered all queued messages after 120 s"); ok = false; }
